@@ -386,7 +386,7 @@ func (e *Env) tryName(name string) (Val, bool) {
 func (e *Env) evalName(name string) Val {
 	g := e.g
 	if v, ok := e.tryName(name); ok {
-		if v.Loc != nil && v.T == "" {
+		if v.Loc != nil {
 			// a variable living in memory: read it in the current state
 			return g.loadLoc(e.st, v.Loc)
 		}
@@ -580,7 +580,7 @@ func pkgOfType(t types.Type) *types.Package {
 
 // fieldOf reads field #idx of a struct value, of a pointer to a struct, or through a symbolic location.
 func (g *Gen) fieldOf(st *State, v Val, idx int) Val {
-	if v.Loc != nil && v.T == "" {
+	if v.Loc != nil {
 		l := g.fieldLoc(v, idx)
 		if l.Loc != nil {
 			return g.loadLoc(st, l.Loc)
@@ -610,7 +610,7 @@ func (g *Gen) fieldOf(st *State, v Val, idx int) Val {
 // fieldLoc computes &v.f for v a pointer (term) or a symbolic location of struct type.
 // The result has Loc set, or (for array-typed fields of heap objects) a term that is the array's reference.
 func (g *Gen) fieldLoc(v Val, idx int) Val {
-	if v.Loc != nil && v.T == "" {
+	if v.Loc != nil {
 		su := v.Loc.T.Underlying().(*types.Struct)
 		dt := g.sorts.structDT(v.Loc.T, su)
 		nl := &Loc{Heap: v.Loc.Heap, Idx: v.Loc.Idx, T: su.Field(idx).Type()}
@@ -635,7 +635,7 @@ func (g *Gen) fieldLoc(v Val, idx int) Val {
 
 // loadPtr loads *p where p is a reference term and el the pointee type.
 func (g *Gen) loadPtr(st *State, p Val, el types.Type) Val {
-	if p.Loc != nil && p.T == "" {
+	if p.Loc != nil {
 		return g.loadLoc(st, p.Loc)
 	}
 	switch u := el.Underlying().(type) {
@@ -663,7 +663,7 @@ func (g *Gen) loadPtr(st *State, p Val, el types.Type) Val {
 
 // storePtr stores v to *p.
 func (g *Gen) storePtr(st *State, p Val, el types.Type, v Val) {
-	if p.Loc != nil && p.T == "" {
+	if p.Loc != nil {
 		g.storeLoc(st, p.Loc, v.T)
 		return
 	}
@@ -945,6 +945,11 @@ func (e *Env) evalCall(x *ECall) Val {
 				var args []Val
 				for i := range x.Args {
 					args = append(args, arg(i))
+				}
+				if v.Fn != nil && len(v.Fn.Blocks) > 0 {
+					if r, ok := g.pureInline(v, args, e.st); ok {
+						return r
+					}
 				}
 				return g.applyPure(v, sig, args)
 			}
